@@ -4,6 +4,7 @@ package sim
 // roles, conditions and annotation settings.
 
 import (
+	corev1 "k8s.io/api/core/v1"
 	metav1 "k8s.io/apimachinery/pkg/apis/meta/v1"
 	"encoding/json"
 	"math/rand/v2"
@@ -27,6 +28,7 @@ type c14Case struct {
 	Ann    map[string]string `json:"ann,omitempty"`
 	Syncs  int               `json:"syncs"`
 	Held   string            `json:"held,omitempty"` // letter of a replica set that is Terminating, held by a finalizer
+	Flip   string            `json:"flip,omitempty"` // the pause reason of the canary replica set changes to this before a last reconcile
 }
 
 var c14Reasons = []string{"CrashLoopBackOff", "ImagePullBackOff", "ErrImagePull", "CreateContainerConfigError", "StartSlow", "Unknown", ""}
@@ -76,6 +78,9 @@ func genC14Inject(r *rand.Rand, tier string, idx int) *World {
 	}
 	if chance(r, 0.25) {
 		cs.Held = pick(r, "A", "B", "C")
+	}
+	if cs.RS["B"].Paused == "True" && chance(r, 0.5) {
+		cs.Flip = pick(r, c14Reasons[:6]...)
 	}
 	b, _ := json.Marshal(cs)
 	w.Extra["case"] = string(b)
@@ -132,5 +137,19 @@ func bodyC14Inject(s *Sim) {
 	for i := 0; i < cs.Syncs; i++ {
 		s.RunTask(CtrlEDS, key)
 		s.Advance(time.Second)
+	}
+	if cs.Flip != "" {
+		// the canary stays paused, for another reason (the kubelet backs off, a second pod fails differently)
+		if r := s.ersByLetter(def, "B"); r != nil {
+			for i := range r.Status.Conditions {
+				if c := &r.Status.Conditions[i]; c.Type == edsv1.ConditionTypeCanaryPaused && c.Status == corev1.ConditionTrue {
+					c.Reason = cs.Flip
+					c.LastUpdateTime = metav1.NewTime(s.Now())
+				}
+			}
+			s.Store.ForceUpdate(r)
+			s.Stats.NonVacuous["C14.pause-reason-changed"]++
+			s.RunTask(CtrlEDS, key)
+		}
 	}
 }
